@@ -128,3 +128,81 @@ Fixpoint worthy_powers (cur new : list Z) (tcur tnew : Z) : wresult :=
     end
   | _, _ => WOk false
   end.
+
+(** ** The version gate (x/paloma CheckChainVersion), with the comparison it makes
+
+    golang.org/x/mod/semver: a version is vMAJOR[.MINOR[.PATCH[-PRERELEASE][+BUILD]]]; build metadata
+    is ignored; a pre-release sorts before its release; pre-release identifiers are compared one by
+    one, numeric ones as numbers, others as byte strings, numeric before alphanumeric, a proper
+    prefix first; an invalid version sorts before every valid one and has the empty major.minor.
+    The gate: same major.minor as the completed upgrade (the governed line), and not older than it. *)
+Inductive pre_id := PNum (n : Z) | PAlpha (s : list Z).
+
+Record semver := { sv_major : Z; sv_minor : Z; sv_patch : Z; sv_pre : list pre_id }.
+
+Fixpoint bytes_cmp (a b : list Z) : comparison :=
+  match a, b with
+  | [], [] => Eq
+  | [], _ => Lt
+  | _, [] => Gt
+  | x :: r, y :: s => match x ?= y with Eq => bytes_cmp r s | c => c end
+  end.
+
+Definition id_cmp (a b : pre_id) : comparison :=
+  match a, b with
+  | PNum x, PNum y => x ?= y
+  | PNum _, PAlpha _ => Lt
+  | PAlpha _, PNum _ => Gt
+  | PAlpha x, PAlpha y => bytes_cmp x y
+  end.
+
+Fixpoint pre_cmp (a b : list pre_id) : comparison :=
+  match a, b with
+  | [], [] => Eq
+  | [], _ => Lt
+  | _, [] => Gt
+  | x :: r, y :: s => match id_cmp x y with Eq => pre_cmp r s | c => c end
+  end.
+
+Definition sem_cmp (a b : semver) : comparison :=
+  match sv_major a ?= sv_major b with
+  | Eq =>
+    match sv_minor a ?= sv_minor b with
+    | Eq =>
+      match sv_patch a ?= sv_patch b with
+      | Eq =>
+        match sv_pre a, sv_pre b with
+        | [], [] => Eq
+        | [], _ => Gt                     (* the release comes after its pre-releases *)
+        | _, [] => Lt
+        | p, q => pre_cmp p q
+        end
+      | c => c
+      end
+    | c => c
+    end
+  | c => c
+  end.
+
+Definition same_line (a b : option semver) : bool :=
+  match a, b with
+  | Some x, Some y => (sv_major x =? sv_major y) && (sv_minor x =? sv_minor y)
+  | None, None => true                    (* MajorMinor of an invalid version is "" *)
+  | _, _ => false
+  end.
+
+(** [running]: None = the binary's version string is not a semantic version.
+    [required]: None = no completed upgrade; Some None = its name is not a semantic version. *)
+Definition gate_open (running : option semver) (required : option (option semver)) : bool :=
+  match required with
+  | None => true
+  | Some g =>
+    same_line running g &&
+    match running, g with
+    | Some a, Some b => match sem_cmp a b with Lt => false | _ => true end
+    | _, _ => true                        (* both invalid: Compare = 0 *)
+    end
+  end.
+
+(** what a comparison of the canonical STRINGS does to multi-digit components (seeded change C09-F) *)
+Definition digits_cmp (a b : list Z) : comparison := bytes_cmp a b.
